@@ -36,6 +36,7 @@ def main():
     ap.add_argument('--procs', type=int, default=int(os.environ.get('VERIF_PROCS', '16')))
     ap.add_argument('--only', default=None, help='substring filter on job labels (debugging)')
     ap.add_argument('--no-tv', action='store_true')
+    ap.add_argument('--list', action='store_true', help='list job labels and exit')
     args = ap.parse_args()
     sys.path.insert(0, VERIF)
     os.chdir(VERIF)
@@ -45,6 +46,12 @@ def main():
     if not args.prop:
         ap.error('property id required')
     from symclif.driver import run_property
+    if args.list:
+        import importlib
+        hm = importlib.import_module('harness.' + args.prop.lower())
+        for j in hm.jobs(args.tier):
+            print(j.get('label') or (j['harness'][1] + __import__('json').dumps(j.get('params', {}), sort_keys=True)))
+        sys.exit(0)
     sys.exit(run_property(args.prop, args.tier, procs=args.procs, only=args.only, tv=not args.no_tv))
 
 
